@@ -2,6 +2,8 @@
 import os, sys, json, time, random, shutil, importlib, traceback, atexit
 
 sys.path.insert(0, os.path.dirname(os.path.abspath(__file__)))
+import logging
+logging.disable(logging.CRITICAL)      # the library logs every injected fault; the harness records them itself
 import common
 from common import VERIF, REPO
 
